@@ -2,26 +2,10 @@
 //! for all byte contents and every partition of the body into <= 3 consecutive chunks (empty chunks
 //! included).  Shapes (actions, body length, partition) are concrete per harness, contents symbolic.
 use redirectionio::api::{BodyFilter, TextAction, TextBodyFilter};
+use crate::util::*;
 use redirectionio::filter::FilterBodyAction;
 
-const OUT: usize = 12;
-
-/// The HTML stage is never constructed in these harnesses, but the chain is a heap Vec of an enum
-/// whose discriminant CBMC does not constant-propagate, so symbolic execution would descend into the
-/// HTML tokenizer (and the SipHash-based void-element set) on an impossible branch.  These stubs
-/// turn that branch into an assertion: if the HTML stage were reachable the harness FAILS, so the
-/// cut cannot hide anything.
-pub fn html_filter_unreachable(
-    _this: &mut redirectionio::filter::HtmlFilterBodyAction,
-    _input: Vec<u8>,
-    _unit_trace: Option<&mut redirectionio::action::UnitTrace>,
-) -> Result<Vec<u8>, redirectionio::filter::VerifFilterBodyError> {
-    panic!("HTML stage reached in a text-only chain")
-}
-
-pub fn html_end_unreachable(_this: &mut redirectionio::filter::HtmlFilterBodyAction) -> Vec<u8> {
-    panic!("HTML stage reached in a text-only chain")
-}
+const OUT: usize = 6;
 
 fn mk(a: u8, c: &[u8]) -> BodyFilter {
     let mut s = String::with_capacity(c.len());
@@ -163,44 +147,110 @@ fn ascii<const N: usize>() -> [u8; N] {
 
 /// Two-filter chain (actions A0, A1; contents of 1 and 2 symbolic ASCII bytes), body of L symbolic
 /// bytes, every partition into three chunks: output == single-chunk output == reference.
-fn chain2<const A0: u8, const A1: u8, const L: usize>() {
+fn chain2<const A0: u8, const A1: u8, const L: usize, const S1: usize, const S2: usize>() {
     let body: [u8; L] = kani::any();
     let c0 = ascii::<1>();
-    let c1 = ascii::<2>();
+    let c1 = ascii::<1>();
     let whole = run(vec![mk(A0, &c0), mk(A1, &c1)], &body, 0, 0, false);
     let r = reference(&[A0, A1], &[&c0, &c1], &body);
     whole.same(&r);
-    let mut s1 = 0;
-    while s1 <= L {
-        let mut s2 = s1;
-        while s2 <= L {
-            let parts = run(vec![mk(A0, &c0), mk(A1, &c1)], &body, s1, s2, true);
-            parts.same(&whole);
-            s2 += 1;
-        }
-        s1 += 1;
-    }
+    // partitions into three consecutive chunks [0,S1) [S1,S2) [S2,L); S1 <= S2 are const parameters
+    let parts = run(vec![mk(A0, &c0), mk(A1, &c1)], &body, S1, S2, true);
+    parts.same(&whole);
     kani::cover!(whole.n > 0);
 }
 
-macro_rules! chain2_harness {
-    ($name:ident, $a0:expr, $a1:expr, $l:expr) => {
+/// Single-stage chain: action A, content 1 symbolic byte, body L bytes cut at (S1, S2).
+fn chain1<const A: u8, const L: usize, const S1: usize, const S2: usize>() {
+    let body: [u8; L] = kani::any();
+    let c0 = ascii::<1>();
+    let whole = run(vec![mk(A, &c0)], &body, 0, 0, false);
+    let r = reference(&[A], &[&c0], &body);
+    whole.same(&r);
+    let parts = run(vec![mk(A, &c0)], &body, S1, S2, true);
+    parts.same(&whole);
+    kani::cover!(whole.n > 0);
+}
+
+macro_rules! chain1_harness {
+    ($name:ident, $a:expr, $l:expr, $s1:expr, $s2:expr) => {
         #[kani::proof]
-        #[kani::unwind(14)]
+        #[kani::unwind(8)]
         #[kani::stub(redirectionio::filter::HtmlFilterBodyAction::filter, html_filter_unreachable)]
         #[kani::stub(redirectionio::filter::HtmlFilterBodyAction::end, html_end_unreachable)]
         fn $name() {
-            chain2::<$a0, $a1, $l>();
+            chain1::<$a, $l, $s1, $s2>();
         }
     };
 }
 
-chain2_harness!(c03_chain_append_prepend_l2, 0, 1, 2);
-chain2_harness!(c03_chain_prepend_append_l2, 1, 0, 2);
-chain2_harness!(c03_chain_replace_append_l2, 2, 0, 2);
-chain2_harness!(c03_chain_append_replace_l2, 0, 2, 2);
-chain2_harness!(c03_chain_prepend_replace_l2, 1, 2, 2);
-chain2_harness!(c03_chain_replace_prepend_l2, 2, 1, 2);
-chain2_harness!(c03_chain_append_append_l2, 0, 0, 2);
-chain2_harness!(c03_chain_prepend_prepend_l2, 1, 1, 2);
-chain2_harness!(c03_chain_replace_replace_l2, 2, 2, 2);
+chain1_harness!(c03_single_prepend_e_1_1, 1, 2, 0, 1);
+chain1_harness!(c03_single_append_1_e_1, 0, 2, 1, 1);
+chain1_harness!(c03_single_replace_e_b_e, 2, 2, 0, 2);
+
+macro_rules! chain2_harness {
+    ($name:ident, $a0:expr, $a1:expr, $l:expr, $s1:expr, $s2:expr) => {
+        #[kani::proof]
+        #[kani::unwind(8)]
+        #[kani::stub(redirectionio::filter::HtmlFilterBodyAction::filter, html_filter_unreachable)]
+        #[kani::stub(redirectionio::filter::HtmlFilterBodyAction::end, html_end_unreachable)]
+        fn $name() {
+            chain2::<$a0, $a1, $l, $s1, $s2>();
+        }
+    };
+}
+
+chain2_harness!(c03_chain_append_append_e_e_b, 0, 0, 2, 0, 0);
+chain2_harness!(c03_chain_append_append_e_1_1, 0, 0, 2, 0, 1);
+chain2_harness!(c03_chain_append_append_1_e_1, 0, 0, 2, 1, 1);
+chain2_harness!(c03_chain_append_append_1_1_e, 0, 0, 2, 1, 2);
+chain2_harness!(c03_chain_append_append_e_b_e, 0, 0, 2, 0, 2);
+chain2_harness!(c03_chain_append_append_b_e_e, 0, 0, 2, 2, 2);
+chain2_harness!(c03_chain_append_prepend_e_e_b, 0, 1, 2, 0, 0);
+chain2_harness!(c03_chain_append_prepend_e_1_1, 0, 1, 2, 0, 1);
+chain2_harness!(c03_chain_append_prepend_1_e_1, 0, 1, 2, 1, 1);
+chain2_harness!(c03_chain_append_prepend_1_1_e, 0, 1, 2, 1, 2);
+chain2_harness!(c03_chain_append_prepend_e_b_e, 0, 1, 2, 0, 2);
+chain2_harness!(c03_chain_append_prepend_b_e_e, 0, 1, 2, 2, 2);
+chain2_harness!(c03_chain_append_replace_e_e_b, 0, 2, 2, 0, 0);
+chain2_harness!(c03_chain_append_replace_e_1_1, 0, 2, 2, 0, 1);
+chain2_harness!(c03_chain_append_replace_1_e_1, 0, 2, 2, 1, 1);
+chain2_harness!(c03_chain_append_replace_1_1_e, 0, 2, 2, 1, 2);
+chain2_harness!(c03_chain_append_replace_e_b_e, 0, 2, 2, 0, 2);
+chain2_harness!(c03_chain_append_replace_b_e_e, 0, 2, 2, 2, 2);
+chain2_harness!(c03_chain_prepend_append_e_e_b, 1, 0, 2, 0, 0);
+chain2_harness!(c03_chain_prepend_append_e_1_1, 1, 0, 2, 0, 1);
+chain2_harness!(c03_chain_prepend_append_1_e_1, 1, 0, 2, 1, 1);
+chain2_harness!(c03_chain_prepend_append_1_1_e, 1, 0, 2, 1, 2);
+chain2_harness!(c03_chain_prepend_append_e_b_e, 1, 0, 2, 0, 2);
+chain2_harness!(c03_chain_prepend_append_b_e_e, 1, 0, 2, 2, 2);
+chain2_harness!(c03_chain_prepend_prepend_e_e_b, 1, 1, 2, 0, 0);
+chain2_harness!(c03_chain_prepend_prepend_e_1_1, 1, 1, 2, 0, 1);
+chain2_harness!(c03_chain_prepend_prepend_1_e_1, 1, 1, 2, 1, 1);
+chain2_harness!(c03_chain_prepend_prepend_1_1_e, 1, 1, 2, 1, 2);
+chain2_harness!(c03_chain_prepend_prepend_e_b_e, 1, 1, 2, 0, 2);
+chain2_harness!(c03_chain_prepend_prepend_b_e_e, 1, 1, 2, 2, 2);
+chain2_harness!(c03_chain_prepend_replace_e_e_b, 1, 2, 2, 0, 0);
+chain2_harness!(c03_chain_prepend_replace_e_1_1, 1, 2, 2, 0, 1);
+chain2_harness!(c03_chain_prepend_replace_1_e_1, 1, 2, 2, 1, 1);
+chain2_harness!(c03_chain_prepend_replace_1_1_e, 1, 2, 2, 1, 2);
+chain2_harness!(c03_chain_prepend_replace_e_b_e, 1, 2, 2, 0, 2);
+chain2_harness!(c03_chain_prepend_replace_b_e_e, 1, 2, 2, 2, 2);
+chain2_harness!(c03_chain_replace_append_e_e_b, 2, 0, 2, 0, 0);
+chain2_harness!(c03_chain_replace_append_e_1_1, 2, 0, 2, 0, 1);
+chain2_harness!(c03_chain_replace_append_1_e_1, 2, 0, 2, 1, 1);
+chain2_harness!(c03_chain_replace_append_1_1_e, 2, 0, 2, 1, 2);
+chain2_harness!(c03_chain_replace_append_e_b_e, 2, 0, 2, 0, 2);
+chain2_harness!(c03_chain_replace_append_b_e_e, 2, 0, 2, 2, 2);
+chain2_harness!(c03_chain_replace_prepend_e_e_b, 2, 1, 2, 0, 0);
+chain2_harness!(c03_chain_replace_prepend_e_1_1, 2, 1, 2, 0, 1);
+chain2_harness!(c03_chain_replace_prepend_1_e_1, 2, 1, 2, 1, 1);
+chain2_harness!(c03_chain_replace_prepend_1_1_e, 2, 1, 2, 1, 2);
+chain2_harness!(c03_chain_replace_prepend_e_b_e, 2, 1, 2, 0, 2);
+chain2_harness!(c03_chain_replace_prepend_b_e_e, 2, 1, 2, 2, 2);
+chain2_harness!(c03_chain_replace_replace_e_e_b, 2, 2, 2, 0, 0);
+chain2_harness!(c03_chain_replace_replace_e_1_1, 2, 2, 2, 0, 1);
+chain2_harness!(c03_chain_replace_replace_1_e_1, 2, 2, 2, 1, 1);
+chain2_harness!(c03_chain_replace_replace_1_1_e, 2, 2, 2, 1, 2);
+chain2_harness!(c03_chain_replace_replace_e_b_e, 2, 2, 2, 0, 2);
+chain2_harness!(c03_chain_replace_replace_b_e_e, 2, 2, 2, 2, 2);
